@@ -31,10 +31,11 @@ type WorkCapTrip struct{ Meter uint64 }
 func (w WorkCapTrip) Error() string { return "verifrt: work cap exceeded" }
 
 var (
-	// plain mode (baton active or single goroutine): non-atomic counters
-	meter    uint64
-	meterCap uint64
-	tripped  bool
+	// plain mode (baton active or single goroutine): non-atomic counters,
+	// one per task (index cur+1; 0 = driver)
+	meters  = make([]uint64, 1)
+	caps    = make([]uint64, 1)
+	tripped bool
 	// shared mode (World C: real goroutines between synctest.Wait barriers)
 	shared        bool
 	sharedMeter   atomic.Uint64
@@ -55,7 +56,16 @@ func ResetMeter(cap uint64) {
 		sharedTripped.Store(false)
 		return
 	}
-	meter, meterCap, tripped = 0, cap, false
+	i := meterIdx()
+	meters[i], caps[i], tripped = 0, cap, false
+}
+
+//go:norace
+func meterIdx() int {
+	if schedActive && cur+1 < len(meters) {
+		return cur + 1
+	}
+	return 0
 }
 
 // Meter returns the number of instrumented statements executed since the last reset.
@@ -65,7 +75,7 @@ func Meter() uint64 {
 	if shared {
 		return sharedMeter.Load()
 	}
-	return meter
+	return meters[meterIdx()]
 }
 
 // Tripped reports whether the cap was exceeded since the last reset.
@@ -90,10 +100,11 @@ func Yield(site int) {
 		}
 		return
 	}
-	meter++
-	if meterCap != 0 && meter > meterCap {
+	i := meterIdx()
+	meters[i]++
+	if caps[i] != 0 && meters[i] > caps[i] {
 		tripped = true
-		panic(WorkCapTrip{meter})
+		panic(WorkCapTrip{meters[i]})
 	}
 	if schedActive {
 		schedPoint(site)
@@ -114,20 +125,22 @@ var (
 	alive       []bool
 	nAlive      int
 
-	baseDec []uint16 // decisions at ordinary sites (0 = keep running)
-	basePos int
-	hotDec  []uint16 // decisions at hot sites
-	hotPos  int
-	hotSite []bool
+	swAfter   []uint16 // run-length schedule: switch after swAfter[i] more ordinary yields ...
+	swTo      []uint16 // ... to the swTo[i]-th other alive task
+	swPos     int
+	countdown int
+	hotDec    []uint16 // decisions at hot sites
+	hotPos    int
+	hotSite   []bool
 
 	// statistics / trace
-	Switches   uint64
-	Decisions  uint64
-	traceHash  uint64 // FNV-1a over (from,to,site) of every hand-over
-	traceOn    bool
-	Trace      []int32 // optional full decision trace: site, from, to triples
-	curCall    []int32 // per task: index of the call currently executing (set by harness)
-	inPoolCrit []int8  // per task: between Pool.Get and Pool.Put
+	Switches          uint64
+	Decisions         uint64
+	traceHash         uint64 // FNV-1a over (from,to,site) of every hand-over
+	traceOn           bool
+	Trace             []int32 // optional full decision trace: site, from, to triples
+	curCall           []int32 // per task: index of the call currently executing (set by harness)
+	inPoolCrit        []int8  // per task: between Pool.Get and Pool.Put
 	ProbeSwitchInCrit uint64
 	ProbeTwoInCrit    uint64
 )
@@ -135,8 +148,9 @@ var (
 // SchedConfig is the pre-drawn schedule of one run.
 type SchedConfig struct {
 	Tasks    int
-	Base     []uint16
-	Hot      []uint16
+	After    []uint16 // run-length encoded switches at ordinary sites
+	To       []uint16
+	Hot      []uint16 // one decision per visit of a hot site (0 = keep running)
 	HotSites []int
 	Trace    bool
 }
@@ -146,12 +160,18 @@ type SchedConfig struct {
 //go:norace
 func SchedStart(c SchedConfig) {
 	nTasks = c.Tasks
+	meters = make([]uint64, c.Tasks+1)
+	caps = make([]uint64, c.Tasks+1)
 	alive = make([]bool, c.Tasks)
 	for i := range alive {
 		alive[i] = true
 	}
 	nAlive = c.Tasks
-	baseDec, basePos = c.Base, 0
+	swAfter, swTo, swPos = c.After, c.To, 0
+	countdown = -1
+	if len(swAfter) > 0 {
+		countdown = int(swAfter[0])
+	}
 	hotDec, hotPos = c.Hot, 0
 	hotSite = make([]bool, len(Sites)+1)
 	for _, s := range c.HotSites {
@@ -160,6 +180,10 @@ func SchedStart(c SchedConfig) {
 		}
 	}
 	inPoolCrit = make([]int8, c.Tasks)
+	curCall = make([]int32, c.Tasks)
+	for i := range curCall {
+		curCall[i] = -1
+	}
 	Switches, Decisions, traceHash = 0, 0, 14695981039346656037
 	ProbeSwitchInCrit, ProbeTwoInCrit = 0, 0
 	traceOn = c.Trace
@@ -195,12 +219,27 @@ func nextDecision(site int) uint16 {
 		}
 		return 0
 	}
-	if basePos < len(baseDec) {
-		d := baseDec[basePos]
-		basePos++
-		return d
+	if countdown < 0 {
+		return 0
 	}
-	return 0
+	if countdown > 0 {
+		countdown--
+		return 0
+	}
+	d := uint16(1)
+	if swPos < len(swTo) {
+		d = swTo[swPos] + 1
+		if d == 0 {
+			d = 1
+		}
+	}
+	swPos++
+	if swPos < len(swAfter) {
+		countdown = int(swAfter[swPos])
+	} else {
+		countdown = -1
+	}
+	return d
 }
 
 // pickOther maps decision d (>0) to an alive task other than me; -2 if none.
@@ -232,7 +271,7 @@ func handOver(me, to, site int) {
 	Switches++
 	mix(uint64(uint32(site))<<32 | uint64(uint16(me))<<16 | uint64(uint16(to)))
 	if traceOn {
-		Trace = append(Trace, int32(site), int32(me), int32(to))
+		traceAdd(int32(site), int32(me), int32(to))
 	}
 	if me >= 0 && inPoolCrit[me] > 0 {
 		ProbeSwitchInCrit++
@@ -241,6 +280,20 @@ func handOver(me, to, site int) {
 		}
 	}
 	cur = to
+}
+
+//go:norace
+func traceAdd(a, b, c int32) {
+	if len(Trace)+3 > cap(Trace) {
+		nt := make([]int32, len(Trace), 2*cap(Trace)+384)
+		for i := range Trace {
+			nt[i] = Trace[i]
+		}
+		Trace = nt
+	}
+	n := len(Trace)
+	Trace = Trace[:n+3]
+	Trace[n], Trace[n+1], Trace[n+2] = a, b, c
 }
 
 //go:norace
